@@ -32,13 +32,13 @@ theorem C48_constants :
     C48.actions.map (·.2) = [aKeepAlive, aCloseAfterReply, aCloseDirectly] := by decide
 
 /-- every statement of every extracted arm is one the skeleton interprets; every callback point occurs exactly once
-    in bfe_server, HandleFinish's verdict is discarded, the others are inspected; ServeHTTP visits its four points in
+    in bfe_server and its block is guarded by nothing but `hl != nil` (`pointGuards = []`: no point is conditional), HandleFinish's verdict is discarded, the others are inspected; ServeHTTP visits its four points in
     the order the skeleton assumes. -/
 theorem C48_reactions_understood :
     C48.armsT.all (fun a => !a.2.2.contains .unknown) = true ∧
     C48.pointsT = [(pAccept, true), (pHandshake, true), (pBeforeLocation, true), (pFoundProduct, true),
       (pAfterLocation, true), (pForward, true), (pReadResponse, true), (pRequestFinish, true), (pFinish, false)] ∧
-    C48.serveHTTPOrder.length = 4 := by decide
+    C48.serveHTTPOrder.length = 4 ∧ C48.pointGuards = [] := by decide
 
 /-- **The skeleton is the source's**: in every function the model's skeleton mirrors, the callback points, the labels
     `response_got` / `send_response` and the calls (findProduct, findCluster, clusterInvoke, RoundTrip, sendResponse,
@@ -59,6 +59,72 @@ theorem C48_skeleton_as_modelled :
        ("ReverseProxy.clusterInvoke", ["call:Balance", "point:Forward", "call:RoundTrip"]),
        ("ReverseProxy.FinishReq", ["point:RequestFinish"])] ∧
     C48.guards.all (·.2) = true := by decide
+
+/-- `interp` never touches the call trace -/
+theorem interp_calls (pt idx : Nat) (toks : List C48.Tok) (s : St) : (interp pt idx toks s).1.calls = s.calls := by
+  induction toks generalizing s with
+  | nil => rfl
+  | cons t ts ih => cases t <;> simp [interp, ih]
+
+/-- **HandleRequestFinish runs for every request, on every path, exactly once and last**: whatever the chains at the
+    other points return (Close, Finish, Redirect, Response, anything) — unless a filter panicked — the trace of one request
+    ends with exactly the calls `HandlerList.FilterResponse` makes on the RequestFinish chain. -/
+theorem C48_request_finish_always_runs (ρ : Nat → ChainRes) (h : (serveHTTP ρ).panicked = false) :
+    (serveRequest ρ).calls = (serveHTTP ρ).calls ++ (ρ pRequestFinish).calls.map (fun i => (pRequestFinish, i)) := by
+  simp only [serveRequest, h, Bool.false_eq_true, ↓reduceIte, atPoint]
+  split
+  · rfl
+  · split
+    · rfl
+    · simp [interp_calls]
+
+/-- **HandleFinish runs exactly once per connection, last** (it is deferred: also after Close at accept and after a
+    panic), and HandleAccept first. -/
+theorem C48_accept_first_finish_last (n : Nat) (ρ : Nat → ChainRes) :
+    ∃ mid, (serveConnR n ρ).calls =
+      (ρ pAccept).calls.map (fun i => (pAccept, i)) ++ mid ++ (ρ pFinish).calls.map (fun i => (pFinish, i)) := by
+  have hloop : ∀ k (acc : ConnOut), ∃ m, (serveLoop ρ k acc).calls = acc.calls ++ m := by
+    intro k
+    induction k with
+    | zero => intro acc; exact ⟨[], by simp [serveLoop]⟩
+    | succ k ih =>
+      intro acc
+      simp only [serveLoop]
+      split
+      · obtain ⟨m, hm⟩ := ih { acc with calls := acc.calls ++ (serveRequest ρ).calls, outs := acc.outs ++ (serveRequest ρ).out.toList, backend := acc.backend + (serveRequest ρ).backend, served := acc.served + 1, unknown := acc.unknown || (serveRequest ρ).unknown }
+        exact ⟨(serveRequest ρ).calls ++ m, by rw [hm]; simp⟩
+      · exact ⟨(serveRequest ρ).calls, rfl⟩
+  have hA : ∀ s : St, s.calls = [] → (atPoint ρ pAccept s).1.calls = (ρ pAccept).calls.map (fun i => (pAccept, i)) := by
+    intro s hs
+    simp only [atPoint, hs, List.nil_append]
+    split
+    · rfl
+    · split
+      · rfl
+      · simp [interp_calls]
+  simp only [serveConnR]
+  split
+  · obtain ⟨m, hm⟩ := hloop n { calls := (atPoint ρ pAccept {}).1.calls, outs := [], backend := 0, served := 0, unknown := (atPoint ρ pAccept {}).1.unknown }
+    first
+      | exact ⟨[], by simp [hA {} rfl]⟩
+      | exact ⟨m, by simp_all [hA {} rfl]⟩
+  · obtain ⟨m, hm⟩ := hloop n { calls := (atPoint ρ pAccept {}).1.calls, outs := [], backend := 0, served := 0, unknown := (atPoint ρ pAccept {}).1.unknown }
+    first
+      | exact ⟨m, by simp_all [hA {} rfl]⟩
+      | exact ⟨[], by simp [hA {} rfl]⟩
+
+/-- a panicking filter (model; the real code is driven on the same rows): the connection is closed, the panicking
+    request gets no reply unless the panic is at HandleRequestFinish (reply already sent), later pipelined requests are
+    not served, HandleFinish still runs — except that a panic INSIDE HandleFinish leaves the connection open (`closed =
+    false`; finding `conn-left-open-after-panic-in-finish`). -/
+theorem C48_panic_rows :
+    (∀ pt ∈ [pAccept, pBeforeLocation, pFoundProduct, pAfterLocation, pForward, pReadResponse],
+      let o := serveConn 3 (fun q => if q == pt then [.boom] else if q == pFinish then [.f 1 false] else []);
+      o.outs = [] ∧ o.closed = true ∧ o.calls.getLast? = some (pFinish, 0)) ∧
+    (let o := serveConn 3 (fun q => if q == pRequestFinish then [.boom] else []);
+      o.outs = [.backend] ∧ o.closed = true ∧ o.served = 1) ∧
+    (let o := serveConn 3 (fun q => if q == pFinish then [.boom] else []);
+      o.outs = [.backend, .backend, .backend] ∧ o.closed = false) := by decide
 
 /-- HandleHandshake (TLS connections; not driven by the harness) reacts to every verdict exactly like HandleAccept -/
 theorem C48_handshake_like_accept : ∀ v ∈ allVerdicts, armFor pHandshake v = armFor pAccept v := by decide
@@ -93,8 +159,10 @@ def divergentFirst (ch : Nat → List Elem) : Bool := divergentStop fun pt => sp
     unread bytes = connection closed) is the documented reaction to the FIRST applicable non-GoOn verdict in callback
     order (`judge`), unless that first verdict is one of the `divergentRows`.  Composes `C48_order_stop` (each chain
     acts through `specChain`) with the extracted per-point arms.  Hypothesis: a Response verdict at a request point
-    comes with a response object (otherwise ServeHTTP dereferences nil). -/
+    comes with a response object (otherwise ServeHTTP dereferences nil), and no filter that is reached panics
+    (panics: `C48_panic_rows`). -/
 theorem C48_general (n : Nat) (ch : Nat → List Elem)
+    (hb : ∀ pt, (specChain (ch pt)).boom = false)
     (hwf : ∀ pt, (pt = pBeforeLocation ∨ pt = pFoundProduct ∨ pt = pAfterLocation) →
       (specChain (ch pt)).ret = vResponse → ∃ j, (specChain (ch pt)).res = some j) :
     (serveConn n ch).unknown = false ∧
@@ -102,7 +170,7 @@ theorem C48_general (n : Nat) (ch : Nat → List Elem)
       judge n ch (serveConn n ch).outs (serveConn n ch).backend (reqBytes * (n - (serveConn n ch).served)) = none) := by
   have hρ : (fun pt => runChain 0 (ch pt)) = fun pt => specChain (ch pt) := by
     funext pt; exact C48_order_stop (ch pt)
-  have := goal_all n (fun pt => specChain (ch pt)) hwf
+  have := goal_all n (fun pt => specChain (ch pt)) hb hwf
   simpa only [GoalAt, serveConn, judge, divergentFirst, hρ] using this
 
 /-- non-vacuity of `C48_general`: a three-point configuration with long chains meets the hypotheses and is not
@@ -126,7 +194,7 @@ theorem C48_redirect_response_rows :
 
 /-- non-vacuity: a quiet configuration serves both requests from the backend -/
 example : (serveConn 2 (fun _ => [])).outs = [.backend, .backend] ∧ (serveConn 2 (fun _ => [])).backend = 2 := by decide
-example : runChain 0 [.f 1 true, .f 1 false, .f 4 false, .f 0 true] = ⟨4, [0, 1, 2], none⟩ := by decide
-example : runChain 0 [.f 1 true, .bad, .f 4 false] = ⟨1, [0], some 0⟩ := by decide
+example : runChain 0 [.f 1 true, .f 1 false, .f 4 false, .f 0 true] = { ret := 4, calls := [0, 1, 2], res := none } := by decide
+example : runChain 0 [.f 1 true, .bad, .f 4 false] = { ret := 1, calls := [0], res := some 0 } := by decide
 
 end BfeVerif.C48
